@@ -2,6 +2,7 @@ import BigtoolsModel.PyBase
 import BigtoolsModel.PyBinsProof
 import BigtoolsModel.PyBedBinsProof
 import BigtoolsModel.PyArr
+import BigtoolsModel.PyOob
 /-! # C20 — Python-binding array routines compute the documented per-base and binned values
 
 Property theorems (statements copied from the lemma modules, proofs by those lemmas). -/
@@ -81,3 +82,18 @@ theorem C20_entry_array_as_found_drops_entries :
   entry_array_drops_as_found 
 
 end PY
+
+namespace PYO
+
+/-- **Out-of-bounds fill.** The fill at the end of `intervals_to_array` / `entries_to_array`, in exact arithmetic, for every
+    request (`a = −start`, `r = length − start`, `L = end − start > 0` bases, `n > 0` cells, any bin width, integral or not):
+    a cell receives the out-of-bounds value exactly when the stretch of the request it stands for starts below position 0
+    or reaches beyond the chromosome's end; every index written is below `n`. -/
+theorem C20_out_of_bounds_fill (a r : Int) (L n k : Nat) (hL : 0 < L) (hk : k < n) :
+    filled a r L n k = true ↔ (startsBelowZero a L n k ∨ reachesPastEnd r L n k) := oob_fill_spec a r L n k hL hk
+
+/-- per-base arrays: position `start + k` is filled exactly when it is below 0 or at / beyond the chromosome length -/
+theorem C20_out_of_bounds_fill_per_base (start len : Int) (L k : Nat) (hL : 0 < L) (hk : k < L) :
+    filled (-start) (len - start) L L k = true ↔ (start + k < 0 ∨ start + k ≥ len) := oob_fill_per_base start len L k hL hk
+
+end PYO
